@@ -107,3 +107,15 @@ Theorem C10_record_type_is_the_sources : forall record_output (slot : option N),
   gen_record_type record_output (match slot with None => true | Some _ => false end).
 Proof. exact record_type_tie. Qed.
 Print Assumptions C10_record_type_is_the_sources.
+
+(* The copier loop itself is the sources': the decision of ONE iteration of `while True:` in TeeProcessor._tee_pipe_run (break on
+   an empty read; write the chunk to the log; unless stream_ok is cleared, write it to Conductor's own stream and flush, clearing
+   stream_ok when that raises) is translated from utils/tee.py on every run, and interpreting it iteration by iteration is exactly
+   the loop [tee_loop_f] that C10_tee_exact / C10_tee_exact_when_own_stream_fails are about. *)
+Theorem C10_copier_loop_is_the_sources :
+  (forall data_empty stream_ok write_ok,
+     map tee_eff_code (tee_iteration data_empty stream_ok write_ok) = gen_tee_iteration data_empty stream_ok write_ok) /\
+  (forall ok reads stream,
+     tee_loop_it ok reads {| ts_file := []; ts_stream := stream; ts_ok := true; ts_broke := false |} = tee_loop_f ok reads [] stream).
+Proof. split; [exact tee_iteration_tie | intros ok reads stream; exact (tee_loop_it_is_tee_loop_f reads ok [] stream true)]. Qed.
+Print Assumptions C10_copier_loop_is_the_sources.
